@@ -1,5 +1,7 @@
 use crate::run::Ctx;
 
+pub mod c0102;
+pub mod c0304;
 pub mod c05;
 pub mod c06;
 pub mod c07;
@@ -16,6 +18,10 @@ pub mod life;
 
 pub fn run(ctx: &mut Ctx) -> bool {
     match ctx.prop.as_str() {
+        "C01" => c0102::run(ctx, c0102::Which { c01: true, c02: false }),
+        "C02" => c0102::run(ctx, c0102::Which { c01: false, c02: true }),
+        "C03" => c0304::run_c03(ctx),
+        "C04" => c0304::run_c04(ctx),
         "C05" => c05::run(ctx),
         "C06" => c06::run(ctx),
         "C07" => c07::run(ctx),
